@@ -1206,6 +1206,18 @@ def rule_attach_table(ctx):
                         continue
                     if isinstance(t, ast.Call) and dotted(t.func) == "isinstance" and len(t.args) == 2:
                         c2t[dotted(t.args[1])] = next(iter(tags))
+    # the factory receives exactly the recorded arguments: `**<the args parameter>`, unfiltered and unmodified
+    argp = asm.params[1] if len(asm.params) > 1 else "sketch_args"
+    fcalls = [e for e in wa.events if e.kind == "call" and isinstance(e.node, ast.Call) and called_name(e) in facs]
+    res = []
+    for e in fcalls:
+        star = (e.kwargs or {}).get(None)
+        okk = isinstance(star, Num) and star.lin == Lin.term(("param", argp)) and not e.args and set((e.kwargs or {})) == {None}
+        res.append((bool(okk), "%s(**%s)" % (called_name(e), argp) if okk else
+                    "the sketch is rebuilt from something other than the recorded arguments `%s` as they are (filtered, copied or "
+                    "extended arguments can differ from the owner's: e.g. a dropped num_reserved=0)" % argp, fact_strs(e)))
+    agg(ctx, "attach-table", asm, fcalls[0].node if fcalls else asm.node, "%s(**%s)" % ("<factory>", argp),
+        "attach_shared_memory constructs the local sketch with exactly the owner's recorded arguments", res or [(False, "no factory call", [])])
     want = {"cms": ("CountMin", "CountMinLinear"), "hh": ("HeavyHitters", "HeavyHitters"), "hll": ("HyperLogLog", "HyperLogLog")}
     for tag, (fac, cname) in want.items():
         okk = t2f.get(tag) == fac
